@@ -128,9 +128,11 @@ class MetricReceiver(CarbonServerProtocol, TimeoutMixin):
 
     # Subscribe before looking at the flag: the cache's writer thread may resume
     # the receivers while we are connecting.
+    # Resume first: a pause raised in between is caught up with by the check
+    # below, a missed resume would not be.
     if settings.USE_FLOW_CONTROL:
-      events.pauseReceivingMetrics.addHandler(self.pauseReceiving)
       events.resumeReceivingMetrics.addHandler(self.resumeReceiving)
+      events.pauseReceivingMetrics.addHandler(self.pauseReceiving)
 
     if state.metricReceiversPaused:
       self.pauseReceiving()
